@@ -22,6 +22,7 @@
 #include <stdint.h>
 #include <stdbool.h>
 #include <assert.h>
+#include <stddef.h>
 
 #include "sqfs/predef.h"
 #include "sqfs/error.h"
@@ -32,6 +33,10 @@
 #include "util/str_table.h"
 #include "sqfs/xattr_writer.h"
 #include "sqfs/xattr.h"
+#include "sqfs/meta_writer.h"
+#include "sqfs/compressor.h"
+#include "sqfs/super.h"
+#include "sqfs/io.h"
 
 /* ------------------------------------------------------------------ allocation ids and the fault */
 #define MAXALLOC 65536
@@ -106,9 +111,14 @@ static void w_free(void *p)
 #include "lib/util/src/hash_table.c"
 #include "lib/util/src/rbtree.c"
 #include "lib/util/src/str_table.c"
-/* one level up: the xattr writer's recording path (create / begin / add_kv / destroy) */
+/* one level up: the xattr writer's recording path (create / begin / add_kv / end / destroy) and the
+ * allocation sites of its flush (xattr_writer_flush.c + the meta writer it drives) */
 #include "lib/sqfs/src/xattr/xattr_writer.c"
 #include "lib/sqfs/src/xattr/xattr_writer_record.c"
+#define hexmap hexmap_of_flush
+#include "lib/sqfs/src/xattr/xattr_writer_flush.c"
+#undef hexmap
+#include "lib/sqfs/src/meta_writer.c"
 #undef malloc
 #undef calloc
 #undef realloc
@@ -494,6 +504,36 @@ static void xw_dump_table(const char *name, str_table_t *st)
 	printf(" ]");
 }
 
+/* the block tree: in order, id/colour/depth/start/count/index (the key bytes hold pointers: not printed) */
+static void xw_dump_tree(const rbtree_node_t *n, unsigned depth)
+{
+	const kv_block_desc_t *d;
+	sqfs_u32 idx;
+	if (n == NULL) return;
+	xw_dump_tree(n->left, depth + 1);
+	d = (const kv_block_desc_t *)n->data;
+	memcpy(&idx, n->data + n->value_offset, sizeof(idx));
+	printf(" %ld/%u/%u/%zu/%zu/%u", amap_id(n), (unsigned)n->is_red, depth, d->start, d->count, (unsigned)idx);
+	xw_dump_tree(n->right, depth + 1);
+}
+
+/* a file that only remembers its size and a compressor that never compresses: what the flush needs */
+struct nullfile { sqfs_file_t base; sqfs_u64 size; };
+static int nf_write_at(sqfs_file_t *f, sqfs_u64 off, const void *buf, size_t size)
+{
+	struct nullfile *nf = (struct nullfile *)f;
+	(void)buf;
+	if (off + size > nf->size) nf->size = off + size;
+	return 0;
+}
+static sqfs_u64 nf_get_size(const sqfs_file_t *f) { return ((const struct nullfile *)f)->size; }
+static void obj_nodestroy(sqfs_object_t *o) { (void)o; }
+static sqfs_s32 nc_do_block(sqfs_compressor_t *c, const sqfs_u8 *in, sqfs_u32 size, sqfs_u8 *out, sqfs_u32 outsize)
+{
+	(void)c; (void)in; (void)size; (void)out; (void)outsize;
+	return 0;
+}
+
 static void run_xw(void)
 {
 	sqfs_xattr_writer_t *xwr = sqfs_xattr_writer_create(0);
@@ -520,7 +560,38 @@ static void run_xw(void)
 			ret = sqfs_xattr_writer_add_kv(xwr, (const char *)kb, vb, n);
 			printf("a ret=%d\n", ret);
 			break;
-		case 'd':
+		case 'e':
+		case 'E': {
+			/* E: a failed end is tried once more (the state a failed end leaves must allow that) */
+			int tries = op[0] == 'E' ? 2 : 1;
+			printf("%c", op[0]);
+			while (tries-- > 0) {
+				sqfs_u32 out = 0xDEADBEEF;
+				ret = sqfs_xattr_writer_end(xwr, &out);
+				if (ret == 0) printf(" ret=0 out=%u", (unsigned)out);
+				else printf(" ret=%d out=%s", ret, out == 0xDEADBEEF ? "-" : "ASSIGNED");
+				if (ret == 0) break;
+			}
+			printf("\n");
+			break;
+		}
+		case 'f': {
+			struct nullfile nf;
+			sqfs_compressor_t nc;
+			sqfs_super_t super;
+			memset(&nf, 0, sizeof(nf)); memset(&nc, 0, sizeof(nc)); memset(&super, 0, sizeof(super));
+			sqfs_object_init(&nf, obj_nodestroy, NULL);
+			sqfs_object_init(&nc, obj_nodestroy, NULL);
+			nf.base.write_at = nf_write_at;
+			nf.base.get_size = nf_get_size;
+			nf.size = 96;
+			nc.do_block = nc_do_block;
+			ret = sqfs_xattr_writer_flush(xwr, (sqfs_file_t *)&nf, &super, &nc);
+			printf("f ret=%d\n", ret);
+			break;
+		}
+		case 'd': {
+			kv_block_desc_t *it;
 			printf("d");
 			print_id("xid", xwr);
 			xw_dump_table("keys", &xwr->keys);
@@ -530,8 +601,17 @@ static void run_xw(void)
 			printf(" count=%zu used=%zu start=%zu :", xwr->kv_pairs.count, xwr->kv_pairs.used, xwr->kv_start);
 			for (i = 0; i < xwr->kv_pairs.used; ++i)
 				printf(" %llu", (unsigned long long)((sqfs_u64 *)xwr->kv_pairs.data)[i]);
+			printf(" ]");
+			printf(" tree[ ks=%zu ksp=%zu vs=%zu nb=%zu :", xwr->kv_block_tree.key_size,
+			       xwr->kv_block_tree.key_size_padded, xwr->kv_block_tree.value_size, xwr->num_blocks);
+			xw_dump_tree(xwr->kv_block_tree.root, 0);
+			printf(" ] chain[");
+			/* the descriptors are the key bytes inside the tree nodes */
+			for (it = xwr->kv_block_first; it != NULL; it = it->next)
+				printf(" %ld", amap_id((const char *)it - offsetof(rbtree_node_t, data)));
 			printf(" ]\n");
 			break;
+		}
 		case 'x':
 			sqfs_drop(xwr);
 			xwr = NULL;
